@@ -89,6 +89,8 @@ def params_mv(st):
 
 def finish(ex, paths, obl, info, extra_units=(), fr=None, extra_mv=None):
     mv = dict(extra_mv or {})
+    if fr and 'args' in fr and paths:
+        mv['args.len'] = I(z3.Length(paths[0][0].g['old']['seq'][Val.addr(fr['args'])])) if 'old' in paths[0][0].g else NONE
     for k, v in (fr or {}).items():
         if k in ('self', 'args', 'kwargs', 'func'):
             continue
